@@ -86,7 +86,7 @@ chk("C01",
     "theorem that once setup has returned an index, the token of EVERY stored keyword is generated and Search returns exactly its list - same "
     "identifiers, same order, no exception, the probe loop terminates - for every configuration the config builder accepts, every key, every "
     "database (no bound on keywords, list lengths, block sizes: the smallest database and every block/level/power-of-two boundary are instances) "
-    "and every randomness tape (Props/C01.lean; proved for the schemes listed in the evidence under schemes_with_theorem: PiBas, PiPack, PiPtr, SSE2, CT14 - incl. the arithmetic of its greedy power-of-two decomposition -, ANSS16; the remaining schemes are decided by correspondence + direct oracle only). Tie: recorded-oracle correspondence - the real scheme runs "
+    "and every randomness tape (Props/C01.lean; proved in full for PiBas, PiPack, PiPtr, Pi2Lev, SSE1, SSE2 - the last two also without any collision hypothesis, address distinctness being derived from C15 -, CT14 - incl. the arithmetic of its greedy power-of-two decomposition -, ANSS16; for DP17 the theorem is partial: no identifier of a stored keyword is missed by a search that returns, while 'does not raise / returns nothing else' rests on AES/HMAC output facts outside the leaf laws and is decided by correspondence + direct oracle). Tie: recorded-oracle correspondence - the real scheme runs "
     "under a recorder (leaves + randomness tape), the Lean driver replays them and must reproduce the key, the index cell by cell, every token "
     "and every result - plus the direct oracle Search(EDBSetup(K,DB),TokenGen(K,w)) == DB[w] on the real code for all nine schemes over "
     "boundary profiles.",
@@ -95,7 +95,7 @@ chk("C01",
     "6/C01")
 chk("C02",
     "Props/C02.lean: for a keyword whose first probe label is not a stored label (every keyword outside the database unless the PRF collides), "
-    "Search completes normally with the empty result - no exception, no foreign or padding identifiers (proved for PiBas, PiPack, PiPtr, SSE2, CT14, ANSS16; the remaining schemes by correspondence + direct oracle only). Tie: "
+    "Search completes normally with the empty result - no exception, no foreign or padding identifiers (proved for all nine schemes, each under the hypothesis that its probe labels are not stored - evaluated by the driver on every recorded run). Tie: "
     "the scheme correspondence with absent keywords adversarially close to stored ones (prefix, suffix, NUL-extended, one bit flipped) in every "
     "case, plus the direct oracle on the real code for all nine schemes.",
     SCHEME_TRUST,
